@@ -119,6 +119,44 @@ ensures
         && r.len == utf8_len(old(self).rest().take(eaten(*old(self), *final(self)))) && r.len >= 1,                       //@C14,C01,C02:progress-and-length
     // a literal's suffix offset never exceeds its length
     r.kind is Literal ==> r.kind->Literal_suffix_start <= r.len,                                                            //@C14:suffix-start
+    // every one-character punctuation / operator is a token of its own, with its own kind (multi-character operators are glued later)
+    old(self).rest().len() > 0 ==> match old(self).rest()[0] {
+        ';' => r.kind == TokenKind::Semi && eaten(*old(self), *final(self)) == 1,
+        ',' => r.kind == TokenKind::Comma && eaten(*old(self), *final(self)) == 1,
+        '(' => r.kind == TokenKind::OpenParen && eaten(*old(self), *final(self)) == 1,
+        ')' => r.kind == TokenKind::CloseParen && eaten(*old(self), *final(self)) == 1,
+        '{' => r.kind == TokenKind::OpenBrace && eaten(*old(self), *final(self)) == 1,
+        '}' => r.kind == TokenKind::CloseBrace && eaten(*old(self), *final(self)) == 1,
+        '[' => r.kind == TokenKind::OpenBracket && eaten(*old(self), *final(self)) == 1,
+        ']' => r.kind == TokenKind::CloseBracket && eaten(*old(self), *final(self)) == 1,
+        '~' => r.kind == TokenKind::Tilde && eaten(*old(self), *final(self)) == 1,
+        '?' => r.kind == TokenKind::Question && eaten(*old(self), *final(self)) == 1,
+        ':' => r.kind == TokenKind::Colon && eaten(*old(self), *final(self)) == 1,
+        '=' => r.kind == TokenKind::Eq && eaten(*old(self), *final(self)) == 1,
+        '!' => r.kind == TokenKind::Bang && eaten(*old(self), *final(self)) == 1,
+        '<' => r.kind == TokenKind::Lt && eaten(*old(self), *final(self)) == 1,
+        '>' => r.kind == TokenKind::Gt && eaten(*old(self), *final(self)) == 1,
+        '-' => r.kind == TokenKind::Minus && eaten(*old(self), *final(self)) == 1,
+        '&' => r.kind == TokenKind::And && eaten(*old(self), *final(self)) == 1,
+        '|' => r.kind == TokenKind::Or && eaten(*old(self), *final(self)) == 1,
+        '+' => r.kind == TokenKind::Plus && eaten(*old(self), *final(self)) == 1,
+        '*' => r.kind == TokenKind::Star && eaten(*old(self), *final(self)) == 1,
+        '^' => r.kind == TokenKind::Caret && eaten(*old(self), *final(self)) == 1,
+        '%' => r.kind == TokenKind::Percent && eaten(*old(self), *final(self)) == 1,
+        _ => true,
+    },                                                                                                                  //@C15:punctuation-table
+    // `/` alone is the division operator, `//` opens a line comment, `/*` a block comment; `.` not followed by a digit is a dot;
+    // a quote opens a string or bit-string literal; `@` not followed by an identifier start is the at sign, otherwise an annotation line
+    (old(self).rest().len() > 0 && old(self).rest()[0] == '/') ==> ({
+        let nx = if old(self).rest().len() > 1 { old(self).rest()[1] } else { '\0' };
+        &&& (nx == '/' ==> r.kind == TokenKind::LineComment)
+        &&& (nx == '*' ==> r.kind is BlockComment)
+        &&& ((nx != '/' && nx != '*') ==> r.kind == TokenKind::Slash && eaten(*old(self), *final(self)) == 1)
+    }),                                                                                                                 //@C15:slash-and-comments
+    (old(self).rest().len() > 0 && old(self).rest()[0] == '.' && !(old(self).rest().len() > 1 && is_dec(old(self).rest()[1])))
+        ==> r.kind == TokenKind::Dot && eaten(*old(self), *final(self)) == 1,                                               //@C15:punctuation-table
+    (old(self).rest().len() > 0 && (old(self).rest()[0] == '"' || old(self).rest()[0] == '\\''))
+        ==> r.kind is Literal && (r.kind->Literal_kind is Str || r.kind->Literal_kind is BitStr),                           //@C15:quoted-literals
     // a token that starts with a digit is the numeric literal of the OpenQASM 3 syntax: class, base,
     // flags, and the literal proper (before any suffix) extends exactly as far as the syntax says
     (old(self).rest().len() > 0 && is_dec(old(self).rest()[0])) ==> r.kind is Literal
@@ -158,9 +196,9 @@ proof { assert(self.rest() == s0.skip(k0)); if self.rest().len() > 1 { assert(se
     // maximal munch: exactly the longest run of whitespace characters
     forall|i: int| 0 <= i < eaten(*old(self), *final(self)) ==> is_ws(#[trigger] old(self).rest()[i]),          //@C15,C14:whitespace-maximal-munch
     final(self).rest().len() > 0 ==> !is_ws(final(self).rest()[0]),                                        //@C15,C14:whitespace-maximal-munch''', ret='k'),
-        scanner('have_dim'),
-        scanner('have_pragma', '', " !r ==> (final(self).prevc() == old(self).prevc() || ascii_letter(final(self).prevc())),", ret='r'),
-        scanner('have_openqasm', '', " !r ==> (final(self).prevc() == old(self).prevc() || ascii_letter(final(self).prevc())),", ret='r'),
+        scanner('have_dim', '', " r == (old(self).rest().len() >= 3 && old(self).rest()[0] == 'd' && old(self).rest()[1] == 'i' && old(self).rest()[2] == 'm'),      //@C15:directive-recognised", ret='r'),
+        scanner('have_pragma', '', " !r ==> (final(self).prevc() == old(self).prevc() || ascii_letter(final(self).prevc())),\n    // (the `p` is consumed) `ragma` and a white-space character: a pragma line\n    r == (old(self).rest().len() >= 6 && old(self).rest()[0] == 'r' && old(self).rest()[1] == 'a' && old(self).rest()[2] == 'g' && old(self).rest()[3] == 'm' && old(self).rest()[4] == 'a' && is_ws(old(self).rest()[5])),      //@C15:directive-recognised", ret='r'),
+        scanner('have_openqasm', '', " !r ==> (final(self).prevc() == old(self).prevc() || ascii_letter(final(self).prevc())),\n    // (the `O` is consumed) `PENQASM` and a white-space character: the version header\n    r == (old(self).rest().len() >= 8 && old(self).rest()[0] == 'P' && old(self).rest()[1] == 'E' && old(self).rest()[2] == 'N' && old(self).rest()[3] == 'Q' && old(self).rest()[4] == 'A' && old(self).rest()[5] == 'S' && old(self).rest()[6] == 'M' && is_ws(old(self).rest()[7])),      //@C15:directive-recognised", ret='r'),
         scanner('openqasm_version'),
         scanner('pragma_or_ident_or_unknown_prefix', " old(self).prevc() == 'p',", ' k == TokenKind::Pragma || k == TokenKind::Ident || k == TokenKind::InvalidIdent,', ret='k'),
         scanner('ident_or_unknown_prefix', " old(self).prevc() == '_' || xid_start(old(self).prevc()),", ' k == TokenKind::Ident || k == TokenKind::InvalidIdent,', ret='k'),
